@@ -44,12 +44,14 @@ class ClassTable:
 
     def __init__(self):
         self.mro = {}
+        self.bases = {}
         self.cls = {}
 
     def name(self, c):
         n = class_name(c)
         if n not in self.mro:
             self.mro[n] = [class_name(b) for b in type.mro(c)] if isinstance(c, type) else [n]
+            self.bases[n] = [class_name(b) for b in getattr(c, "__bases__", ())]
             self.cls[n] = c
             for b in type.mro(c)[1:]:
                 self.name(b)
@@ -319,10 +321,11 @@ def tla_term(t):
     )
 
 
-def tla_class_table(table=TABLE, names=None):
-    """TLA+ text of the function  Mro == class name -> sequence of MRO names."""
+def tla_class_table(table=TABLE, names=None, which="mro"):
+    """TLA+ text of the function  class name -> sequence of MRO names (or direct base names)."""
     names = sorted(table.mro) if names is None else sorted(names)
-    items = ["%s :> <<%s>>" % (tla_str(n), ", ".join(tla_str(b) for b in table.mro[n])) for n in names]
+    src = table.mro if which == "mro" else table.bases
+    items = ["%s :> <<%s>>" % (tla_str(n), ", ".join(tla_str(b) for b in src[n])) for n in names]
     return " @@\n    ".join(items)
 
 
